@@ -358,7 +358,9 @@ def run(ctx):
                        "40 C functions / VM opcodes and to the extracted model, compared word for word; outer: corpus, then operand tuples "
                        "over the boundary lattice x every operation through the Scheme API vs the extracted Z/Q spec; round 2: every pair of exact types "
                        "{fixnum, bignum, ratio, complex} x + - * / = vs the Gaussian-rational spec, rationals in radix 2..36, binary64 bit patterns "
-                       "(every sampled power of two and its two neighbours, fixnum/bignum boundary, subnormals) through exact / inexact; a case is "
+                       "(every sampled power of two and its two neighbours, fixnum/bignum boundary, subnormals) through exact / inexact; round 3: = < > <= >= (2 and 3 arguments, both orders), max, min "
+                       "between every exact kind and the double NEAREST to it, that double's two neighbours, +-0, +-inf, NaN, extreme doubles, vs the order of the exact rationals "
+                       "(SpecCmp), and the same operands through the real sexp_compare / VM opcodes vs the extracted Model10; a case is "
                        "non-trivial when at least one operand is a bignum (|x| >= 2^62) or a ratio, distinct by (op, operands)")
     d = ctx.build("default")
     # (G) constants of the source tree -> coq/Gen/C04_Consts.v (checked against the models' literals by
@@ -424,6 +426,10 @@ def run(ctx):
     cases += gen_radix_q(ctx, rng, exe, lat, 250 if not ctx.thorough else 3000)
     if os.path.exists(os.path.join(os.path.dirname(__file__), "..", "coq", "C04", "SpecFloat.v")):
         cases += gen_conv(ctx, rng, exe)
+    cmpx_inner = []
+    if os.path.exists(os.path.join(os.path.dirname(__file__), "..", "coq", "C04", "SpecCmp.v")):
+        cx, cmpx_inner = gen_cmpx(ctx, rng)
+        cases += cx
     so = ctx.run_model(exe, [c[2] for c in cases])
     io = run_outer(ctx, d, [c[1] for c in cases])
     byop = {}
@@ -455,6 +461,27 @@ def run(ctx):
         ctx.count(1, key=("model", rq), nontrivial=True)
         if not _model_agrees(m, sp):
             ctx.broken("correspondence:model-vs-spec:" + rq.split()[0], "%s: model %s, spec %s" % (rq[:300], m[:300], sp[:300]))
+    # round 3: sexp_compare / the VM comparison opcodes on mixed operands: extracted model (Model10.x_compare / vm_cmp, the
+    # subject of theorem mixed_compare_Q) vs the REAL C function on the same operands (K-inner), both against the spec
+    if cmpx_inner:
+        creq = [q for q, _, _ in cmpx_inner]
+        cmo = ctx.run_model(exe, creq)
+        cso = ctx.run_model(exe, [sq for _, sq, _ in cmpx_inner])
+        cio = run_harness(ctx, emb, creq, B.chibi_env(d))
+        for (q, sq, sig), m, sp, i in zip(cmpx_inner, cmo, cso, cio):
+            ctx.count(1, key=q, nontrivial=True)
+            ctx.cov["traces_validated_against_impl"] += 1
+            exp = ("NAN" if sp == "UNDEF" else {"V -1": "-1", "V 0": "0", "V 1": "1"}.get(sp, sp)) if q.startswith("x_compare") else sp
+            if m != exp:
+                ctx.broken("correspondence:model-vs-spec:" + q.split()[0], "%s: model %s, spec %s" % (q[:300], m, sp))
+            if i is None:
+                continue
+            if i != exp:
+                ctx.violation(sig, input=q, expected=exp, observed=i, spec_request=sq,
+                              replay="echo '%s' | LD_LIBRARY_PATH=%s %s" % (q, d, emb))
+            elif i != m:
+                ctx.broken("correspondence:digit-layer:" + q.split()[0], "model and C differ: %s model=%s impl=%s" % (q, m, i))
+        ctx.cov["cmpx_inner"] = len(cmpx_inner)
     ctx.sample(dict(kind="outer", expr=cases[0][1], spec=so[0], impl=io[0]))
     ctx.sample(dict(kind="outer", expr=cases[-1][1], spec=so[-1], impl=io[-1]))
     ctx.assume("flonum arithmetic, transcendental functions, and expt / exp / make-polar ... of exact complex numbers (computed through flonums) are "
@@ -469,6 +496,9 @@ def run(ctx):
               "the outer correspondence only (no model); string->number is compared for radix <= 16 only (R7RS: 2, 8, 10, 16); the models of the "
               "generic dispatch over exact reals / complex numbers (Model7) and of sexp_inexact_to_exact (Model8) are tied to the spec on the run's "
               "inputs (model-vs-spec) and the implementation to the same spec (K-outer), not word for word")
+    ctx.assume("comparisons with a flonum: a finite double denotes its exact dyadic value (SpecFloat.b64_decode); the C comparisons of two doubles and isinf / isnan "
+               "are taken as exact (IEEE-754); sexp_compare with operands out of type order is proved up to 'the inner result is not MIN_FIXNUM' "
+               "(mixed_compare_swapped_partial) and tied by the inner correspondence on both operand orders")
     ctx.assume("termination of the ratio add/sub/mul/div/compare/rounding wrappers and any bound on the number of rounds of quot_rem / "
                "Karatsuba / Newton are not proved (existence of a fuel is, for quot_rem, Karatsuba, expt, Euclid, ratio_normalize, sqrt)")
     ctx.note("absence of operand mutation: proved for the store-passing model Store.v of sexp_add/sub/mul/quotient/remainder/div on fixnum|bignum "
@@ -883,6 +913,164 @@ def gen_conv(ctx, rng, exe):
         kind = "integer" if d == 1 else ("ratio-huge-denominator" if d.bit_length() > 1024 else "ratio")
         cases.append(("convert:inexact:%s" % kind, e, "spec_q %s %s" % (zhex(n), zhex(d)), ("inexact", n, d), True))
     return cases
+
+
+# ---------------------------------------------------------------------------------------------------------------
+# round 3: comparisons in which an operand is a flonum (stream `cmpx:`).  A finite double denotes an exact dyadic
+# rational; the expected answers come from the extracted Coq spec SpecCmp (order of the rationals, +-inf, NaN false).
+def _near_doubles(fr):
+    """bits of the double nearest to the fraction and of its two neighbours (the three adversarial flonums)"""
+    try:
+        x = fr.numerator / fr.denominator          # int / int is correctly rounded
+    except OverflowError:
+        x = float("inf") if fr > 0 else float("-inf")
+    if x in (float("inf"), float("-inf")):
+        mx = 0x7FEFFFFFFFFFFFFF | ((1 << 63) if x < 0 else 0)
+        return [mx, mx - 1]
+    b = _bits_of(x)
+    if (b & ~(1 << 63)) == 0:
+        return [0, 1, (1 << 63) | 1]
+    return [b, b - 1, b + 1 if (b + 1) & 0x7FF0000000000000 != 0x7FF0000000000000 else b]
+
+
+def _cmpx_exacts(rng, thorough):
+    from fractions import Fraction as Fr
+    out = [Fr(0), Fr(1), Fr(-1), Fr(1, 3), Fr(-1, 3), Fr(2, 3), Fr(1, 10), Fr((1 << 79) + 1, 1 << 80), Fr((1 << 79) - 1, 1 << 80),
+           Fr(3 * 10 ** 30 + 1, 3), Fr(3, 8), Fr(-3, 8), Fr(1, 2),
+           Fr(1 << 53), Fr((1 << 53) + 1), Fr((1 << 53) - 1), Fr(-(1 << 53) - 1), Fr((1 << 54) + 1), Fr((1 << 54) + 2), Fr((1 << 54) + 3),
+           Fr((1 << 61) + 1), Fr((1 << 61) - 1), Fr(FIXMAX), Fr(FIXMAX - 1), Fr(-(1 << 62)), Fr(-(1 << 62) + 1),
+           Fr(1 << 62), Fr((1 << 62) + 1), Fr(-(1 << 62) - 1), Fr((1 << 62) + (1 << 9)), Fr((1 << 62) + (1 << 9) + 1), Fr((1 << 63) - 1), Fr((1 << 63) + 1),
+           Fr(1 << 64), Fr((1 << 64) + 1), Fr((1 << 64) - 1), Fr(-(1 << 64) - 1), Fr((1 << 64) + (1 << 11)), Fr((1 << 64) + (1 << 11) + 1),
+           Fr((1 << 64) + (1 << 12) - 1), Fr((1 << 128) + 1), Fr(10 ** 30), Fr(1 << 1023), Fr((1 << 1023) + 1), Fr(-(1 << 1023) - 1),
+           Fr((1 << 1024) - (1 << 970)), Fr((1 << 1024) - (1 << 970) + 1), Fr((1 << 1024) - (1 << 970) - 1), Fr(1 << 1024), Fr(-(1 << 1024)), Fr((1 << 1100) + 1),
+           Fr(1, 1 << 1074), Fr(1, (1 << 1074) + 1), Fr(1, (1 << 1074) - 1), Fr(-1, (1 << 1074) + 1), Fr(3, 1 << 1075), Fr(1, 1 << 1075), Fr(1, 1 << 1080),
+           Fr(1, 3 << 1070), Fr((1 << 52) + 1, 1 << 1074), Fr((1 << 53) + 1, 1 << 1075), Fr(1, 1 << 1022), Fr((1 << 60) + 1, (1 << 1082)),
+           Fr((1 << 62) + 1, 3), Fr(-(1 << 62), 3), Fr((1 << 64) + 1, 1 << 11), Fr((1 << 200) + 1, (1 << 199) + 1), Fr(7, (1 << 64) + 1), Fr(-(1 << 62), (1 << 62) + 1)]
+    for _ in range(40 if not thorough else 600):
+        k = rng.randrange(8)
+        if k == 0:
+            out.append(Fr(rng.getrandbits(rng.choice([20, 53, 54, 60, 62])) * rng.choice([1, -1])))
+        elif k == 1:
+            out.append(Fr((1 << rng.choice([62, 63, 64, 65, 100, 127, 128, 200, 500, 1000, 1023])) + rng.choice([-1, 0, 1, 1 << 11, (1 << 11) + 1, rng.getrandbits(40)])) * rng.choice([1, -1]))
+        elif k == 2:                     # a double's value +- a tiny exact amount: within half an ulp of that double
+            x = Fr(_float_of((rng.getrandbits(1) << 63) | (rng.choice([1, 2, 1000, 1022, 1023, 1024, 1075, 1086, 1087, 2000, 2046, rng.randrange(1, 2047)]) << 52) | rng.getrandbits(52)))
+            out.append(x + Fr(rng.choice([1, -1]), 1 << rng.choice([1080, 1100, 1200])) if rng.random() < 0.7 else x)
+        elif k == 3:
+            out.append(Fr(rng.getrandbits(rng.choice([10, 62, 64, 70, 130])) + 1, rng.choice([3, 7, 10, (1 << 62) + 1, (1 << 64) - 1, 3 ** 50])) * rng.choice([1, -1]))
+        elif k == 4:                     # dyadic ratios: equal to a double when the numerator has at most 53 bits
+            out.append(Fr(rng.getrandbits(rng.choice([5, 52, 53, 54, 55, 64])) | 1, 1 << rng.choice([1, 10, 52, 53, 62, 64, 100, 1022, 1074])) * rng.choice([1, -1]))
+        elif k == 5:                     # subnormal range
+            out.append(Fr(rng.getrandbits(rng.choice([1, 10, 52, 53])) + 1, (1 << 1074) + rng.choice([0, 0, 1, -1])) * rng.choice([1, -1]))
+        elif k == 6:
+            out.append(Fr(rng.randrange(-50, 50), rng.randrange(1, 50)))
+        else:
+            out.append(Fr((1 << 1024) - (1 << 970) + rng.choice([-1, 0, 1, 1 << 969, (1 << 969) + 1, (1 << 969) - 1])) * rng.choice([1, -1]))
+    return out
+
+
+def _ekind(fr):
+    return "r" if fr.denominator != 1 else tcls(fr.numerator)
+
+
+class _Op:
+    """one operand of a cmpx case: spec triple, model / harness operand, Scheme text"""
+    def __init__(self, fr=None, bits=None):
+        self.fr, self.bits = fr, bits
+        if fr is not None:
+            self.kind = _ekind(fr)
+            self.spec = "0 %s %s" % (zhex(fr.numerator), zhex(fr.denominator))
+            self.scm = _qlit(fr.numerator, fr.denominator)
+            self.inner = ("n %s -" % numstr(None, fr.numerator, False)) if fr.denominator == 1 else "q %s %s" % (numstr(None, fr.numerator, False), numstr(None, fr.denominator, False))
+        else:
+            self.kind = "d"
+            self.spec = "1 %x 0" % bits
+            mag = bits & ~(1 << 63)
+            if mag == 0x7FF0000000000000:
+                self.scm, self.inner = ("(/ -1. 0.)", "i - -") if bits >> 63 else ("(/ 1. 0.)", "i + -")
+            elif mag > 0x7FF0000000000000:
+                self.scm, self.inner = "(/ 0. 0.)", "x - -"
+            else:
+                self.scm = flo_expr(bits) if mag else ("(* -1. 0.)" if bits >> 63 else "0.")
+                self.inner = "d %x -" % bits
+        self.key = self.spec
+
+
+PINF, NINF, NAN_ = 0x7FF0000000000000, 0xFFF0000000000000, 0x7FF8000000000000
+
+
+def gen_cmpx(ctx, rng):
+    """returns (outer cases, inner requests [(harness/model request, spec request, sig)])"""
+    from fractions import Fraction as Fr
+    exacts = _cmpx_exacts(rng, ctx.thorough)
+    special = [0, 1 << 63, PINF, NINF, NAN_, 1, 0x0010000000000000, 0x7FEFFFFFFFFFFFFF, 0xFFEFFFFFFFFFFFFF, _bits_of(0.5), _bits_of(1e30), _bits_of(2.0 ** 62), _bits_of(-2.0 ** 62), _bits_of(2.0 ** 53)]
+    pairs = []
+    for fr in exacts:
+        ds = _near_doubles(fr)
+        ds.append(rng.choice(special))
+        if ctx.thorough:
+            ds.append(rng.choice(special))
+            ds.append((rng.getrandbits(1) << 63) | (rng.randrange(0, 2047) << 52) | rng.getrandbits(52))
+        for b in ds:
+            pairs.append((_Op(fr=fr), _Op(bits=b)))
+    # every special double (+-0, +-inf, NaN, extreme doubles ...) against one representative of every exact kind, in every run
+    for fr in (Fr(0), Fr((1 << 53) + 1), Fr(-(1 << 62)), Fr((1 << 64) + 1), Fr(-(1 << 1023) - 1), Fr(1 << 1024), Fr(1, 3), Fr(-7, (1 << 64) + 1),
+               Fr((1 << 200) + 1, (1 << 199) + 1), Fr(1, (1 << 1074) + 1)):
+        for b in special:
+            pairs.append((_Op(fr=fr), _Op(bits=b)))
+    # flonum against flonum, and exact against exact of different kinds through the same entry point
+    for _ in range(30 if not ctx.thorough else 600):
+        b = (rng.getrandbits(1) << 63) | (rng.randrange(0, 2047) << 52) | rng.getrandbits(52)
+        pairs.append((_Op(bits=b), _Op(bits=rng.choice([b, b + 1, b ^ (1 << 63), rng.choice(special)]))))
+        pairs.append((_Op(fr=rng.choice(exacts)), _Op(fr=rng.choice(exacts))))
+    cases, inner = [], []
+    OPS = ["=", "<", ">", "<=", ">="]
+    for x, y in pairs:
+        sig = "cmpx:all:%s%s" % (x.kind, y.kind)
+        e = "(let ((a %s) (b %s)) (values %s %s))" % (x.scm, y.scm, " ".join("(if (%s a b) 1 0)" % o for o in OPS), " ".join("(if (%s b a) 1 0)" % o for o in OPS))
+        cases.append((sig, e, "spec_cmpx_all %s %s" % (x.spec, y.spec), ("cmpx", x.key, y.key), True))
+        for u, v in ((x, y), (y, x)):
+            inner.append(("x_compare %s %s" % (u.inner, v.inner), "spec_cmpx_sgn %s %s" % (u.spec, v.spec), "cmpx:sexp_compare:%s%s" % (u.kind, v.kind)))
+            op = rng.randrange(5)
+            inner.append(("vm_cmp%d %s %s" % (op, u.inner, v.inner), "spec_cmpx2 %d %s %s" % (op, u.spec, v.spec), "cmpx:vm:%s:%s%s" % (OPS[op], u.kind, v.kind)))
+    # three arguments: (op a b c) = (and (op a b) (op b c)); R7RS requires transitivity, so a flonum between two exact
+    # numbers that round to it (and an exact number between two flonums) must order correctly
+    trip = []
+    for fr in exacts:
+        ds = _near_doubles(fr)
+        for b in ds[:2]:
+            fv = Fr(_float_of(b)) if (b & ~(1 << 63)) < PINF else None
+            other = rng.choice(exacts) if fv is None or rng.random() < 0.3 else rng.choice([2 * fv - fr, fr, fv, fv + (fv - fr) / 3, fr + Fr(1, 1 << 1200)])
+            trip.append((_Op(fr=fr), _Op(bits=b), _Op(fr=other)))
+            trip.append((_Op(bits=b), _Op(fr=fr), _Op(bits=rng.choice(ds))))
+    if not ctx.thorough:
+        trip = rng.sample(trip, min(len(trip), 160))
+    for x, y, z in trip:
+        sig = "cmpx:3:%s%s%s" % (x.kind, y.kind, z.kind)
+        if rng.random() < 0.25:
+            e = "(let ((a %s) (b %s) (c %s)) (values %s))" % (x.scm, y.scm, z.scm, " ".join("(if (apply %s (list a b c)) 1 0)" % o for o in OPS))
+        else:
+            e = "(let ((a %s) (b %s) (c %s)) (values %s))" % (x.scm, y.scm, z.scm, " ".join("(if (%s a b c) 1 0)" % o for o in OPS))
+        cases.append((sig, e, "spec_cmpx3_all %s %s %s" % (x.spec, y.spec, z.spec), ("cmpx3", x.key, y.key, z.key), True))
+    # max / min with one flonum: the result is inexact (contagion) and, when the winner is exactly representable, its
+    # exact value is the winner's.  Only pairs whose two values are both doubles are generated (the spec judges).
+    mm = []
+    for x, y in pairs:
+        if x.fr is None or y.bits is None or (y.bits & ~(1 << 63)) >= PINF:
+            continue
+        try:
+            xf = x.fr.numerator / x.fr.denominator
+        except OverflowError:
+            continue
+        if Fr(xf) == x.fr:
+            mm.append((x, y))
+    if not ctx.thorough:
+        mm = rng.sample(mm, min(len(mm), 60))
+    for x, y in mm:
+        for op, name in ((0, "max"), (1, "min")):
+            u, v = (x, y) if rng.random() < 0.5 else (y, x)
+            e = "(let ((r (%s %s %s))) (if (inexact? r) (exact r) (error \"exact result of max/min with an inexact argument\")))" % (name, u.scm, v.scm)
+            cases.append(("cmpx:%s:%s%s" % (name, u.kind, v.kind), e, "spec_maxmin %d %s %s" % (op, u.spec, v.spec), ("cmpx-" + name, u.key, v.key), True))
+    return cases, inner
 
 
 def gen_radix(rng, lat, n):
